@@ -35,6 +35,13 @@ CHECKS["C20"] = dict(level="model_checking", design="DESIGN.md §6 C20, §3.1 Re
          "aliasing shows) and validate operation traces recorded from the code.",
     note="Bounded: 2-3 results, 2-3 messages in the exhaustive/generated part; 5 results, 6 messages in recorded traces. Trusted: projection function, TLC.")
 
+CHECKS["C15"] = dict(level="model_checking", design="DESIGN.md §6 C15, §3.1 RegexpCache, §4.2 schedules",
+    technique="explicit TLA+ state machine RegexpCache.tla: exhaustive interleavings by TLC; TLC-generated schedules replayed on real goroutines through gate hooks; recorded concurrent uses validated by Trace_RegexpCache.tla",
+    text="The cache protocol of rexp.go is modelled step by step (lookup, compile, lock, reload, store, unlock) and checked for all interleavings of 3 goroutines (KeyIsSource, ReturnedIsRequested, "
+         "InvalidNeverCached). Schedules produced by TLC are forced onto real goroutines with the verifGate hooks, with near-colliding real patterns substituted; every returned answer is compared with "
+         "Go's regexp compiled from the requested pattern. The verdict depends only on returned answers and on KeyIsSource of the real cache.",
+    note="Trusted: Go regexp as fact oracle; gate hooks mark the protocol steps. A tree that changes the protocol is still checked through returned answers (schedule marked unreplayable).")
+
 NOT_YET = {}
 
 
